@@ -38,3 +38,7 @@ if "C01" in CHECKS:
     CHECKS["C01"]["stages"]["thorough"].append(st("vh-node"))
     CHECKS["C01"]["technique"] += ("; node level: every single-field mutant imported into a real Node "
                                    "must never be reported as Processed and must leave the raw dump unchanged")
+
+# C21: codec variant (real LogSync over tokio::io::duplex(n) with the real p2panda_net codec framing).
+CHECKS["C21"]["stages"]["quick"].append(st("vh-net"))
+CHECKS["C21"]["stages"]["thorough"].append(st("vh-net"))
